@@ -205,6 +205,11 @@ def vector_form(repo, fn):
     x0 = fn.params[0]
     cases = [(leaf, f) for node, leaf, f in value_cases(fn, "return")
              if not any(k == "T" and t == f"isinstance({x0}, str)" for k, t in f) and any(node is r for r in rets)]
+    # several implementations of the SAME statistic chosen by a test that says nothing about the length (a vectorised
+    # shortcut for some dtypes next to the general form) are one case
+    free = [c for c in cases if not any(_len_threshold(f_) or _len_below(f_) for f_ in c[1])]
+    if len(free) >= 2 and len({stat_name(repo, fn, leaf)[0] for leaf, _ in free}) == 1:
+        cases = [c for c in cases if c not in free[:-1]]
     tc = threshold_cases(cases)
     if tc is None:
         raise AnalysisError(f"{fn.qualname}: cannot read threshold/default of the vector form from its {len(cases)} return case(s)")
